@@ -1,11 +1,16 @@
 package props
 
 import (
+	"fmt"
 	"math/rand"
+	"os"
+	"path/filepath"
+	"strings"
 	"time"
 
 	"kv/core"
 	"kv/kj"
+	"kv/obs"
 )
 
 // C01: every complete report nets to zero.
@@ -29,4 +34,89 @@ func C01(c *core.Ctx) {
 		rows := rowsOf(cs)
 		return len(rows) >= 4
 	})
+	c01free(c, rng)
+}
+
+// c01free: valued reports outside the model's integer regime (2-decimal quantities, arbitrary
+// 4-decimal prices, inverse and chained: the 8-decimal truncation bites on every posting).
+// Only C01's own statement is judged: all Delta cells are zero, digit by digit.
+func c01free(c *core.Ctx, rng *rand.Rand) {
+	knut := c.Knut("")
+	dir := filepath.Join(c.Work, "c01free")
+	os.MkdirAll(dir, 0o755)
+	n := c.Pick(200, 3000)
+	type job struct {
+		j *kj.Journal
+		f *kj.Flags
+	}
+	jobs := make([]job, n)
+	for i := range jobs {
+		j := kj.Random(rng, kj.GenOpts{Valued: true, MaxDirs: 12, DensePrices: i%2 == 0}, 18262+rng.Intn(60))
+		j.QS = 100
+		for k := range j.Dirs {
+			switch j.Dirs[k].K {
+			case "price":
+				j.Dirs[k].P = 1000 + rng.Intn(30000)
+			case "trx":
+				bk := append([]kj.Booking(nil), j.Dirs[k].Bk...)
+				for b := range bk {
+					bk[b].Q = bk[b].Q*100 + rng.Intn(100)
+				}
+				j.Dirs[k].Bk = bk
+			}
+		}
+		f := randomFlags(rng, j, flagOpts{Valued: true})
+		f.V = []string{"CHF", "USD", "AAPL"}[rng.Intn(3)]
+		jobs[i] = job{j, f}
+	}
+	run := func(i int) map[string]any {
+		file := filepath.Join(dir, fmt.Sprintf("f%d.knut", i))
+		text := jobs[i].j.Render()
+		os.WriteFile(file, []byte(text), 0o644)
+		defer os.Remove(file)
+		args := append([]string{"balance", "--color=false", "--digits", "8"}, jobs[i].f.Args()...)
+		r := core.Run(core.RunOpts{Timeout: 60 * time.Second}, knut, append(args, file)...)
+		o := map[string]any{"exit": r.Exit, "bad": false, "delta": []any{}}
+		if r.Exit == 0 {
+			t, err := obs.ParseBalanceText(r.Stdout)
+			if err != nil {
+				o["bad"] = true
+			} else {
+				rows := []any{}
+				for _, row := range t.Rows {
+					if row.Section != "Delta" {
+						continue
+					}
+					cells := []any{}
+					for _, cell := range row.Cells {
+						ds := []any{}
+						for _, ch := range cell {
+							if ch >= '0' && ch <= '9' {
+								ds = append(ds, int(ch-'0'))
+							}
+						}
+						cells = append(cells, ds)
+					}
+					rows = append(rows, cells)
+				}
+				o["delta"] = rows
+			}
+		}
+		return map[string]any{"id": 2000000 + i, "kind": "delta", "obs": o, "argv": strings.Join(args, " "), "text": text, "stdout": r.Stdout, "stderr": r.Stderr}
+	}
+	cases := make([]map[string]any, n)
+	core.Parallel(n, func(i int) { cases[i] = run(i) })
+	ok := 0
+	for _, cs := range cases {
+		if cs["obs"].(map[string]any)["exit"] == 0 {
+			ok++
+		}
+	}
+	c.Add("evaluations", n)
+	c.Add("free_regime_reports", ok)
+	c.JudgeAndReport("Trace_Ledger", "Trace_Ledger.cfg", cases, 8,
+		func(old map[string]any) map[string]any { return run(old["id"].(int) - 2000000) },
+		func(cs map[string]any) (string, string) {
+			return "C01:free-regime-" + fmt.Sprint(cs["why"]), fmt.Sprintf("knut %v\n%v\n%v\n--- journal\n%v", cs["argv"], cs["stdout"], cs["stderr"], cs["text"])
+		})
 }
